@@ -121,7 +121,7 @@ class C06(Check):
             "delimited; value features); non-trivial = the type has a sub-byte field or a nested composite or a variable array")
     TIERS = {"quick": {"runs": 480, "budget_s": 50}, "thorough": {"runs": 40000, "budget_s": 900}}
     ASSUMPTIONS = ["struct (IEEE-754 rounding of finite floats) is trusted on both sides", "an infinite input for a *saturated* float field is not generated (left open by the property text)",
-                   "float inputs for integer fields and ambiguous bare-dict relaxed forms are not generated"]
+                   "float inputs for integer fields are generated with integral values only (a non-integral float would need a rounding rule the property does not state); ambiguous bare-dict relaxed forms are not generated"]
 
     def generate(self, rng: random.Random, r: int, tier: str) -> dict:
         return {"ws": gen_wire_ws(rng), "value_seed": rng.randrange(1 << 30), "nvalues": rng.choice([12, 20, 40])}
